@@ -53,3 +53,53 @@ V('c05-wrong-kind', 'C05', 'C05.R3',
   (OBJ, "        return (_eq_name(self.host, other.host) and\n                _eq_name(self.namespace, other.namespace) and\n                _eq_name(self.classname, other.classname) and\n                _eq_dict(self.keybindings, other.keybindings))",
         "        return (_eq_name(self.host, other.host) and\n                _eq_item(self.namespace, other.namespace) and\n                _eq_name(self.classname, other.classname) and\n                _eq_dict(self.keybindings, other.keybindings))"),
   'namespace')
+
+# ---- C06 ------------------------------------------------------------------
+V('c06-range-and', 'C06', 'C06.R1',
+  (TYP, "if value > cls.maxvalue or value < cls.minvalue:",
+        "if value > cls.maxvalue and value < cls.minvalue:"), 'CIMInt.__new__')
+V('c06-range-max-only', 'C06', 'C06.R1',
+  (TYP, "if value > cls.maxvalue or value < cls.minvalue:",
+        "if value > cls.maxvalue:"), 'no-min-check')
+V('c06-bound-sint64', 'C06', 'C06.R2',
+  (TYP, "    minvalue = -2 ** (64 - 1)", "    minvalue = -2 ** (64 - 1) + 1"),
+  'Sint64')
+V('c06-bound-uint16', 'C06', 'C06.R2',
+  (TYP, "    maxvalue = 2**16 - 1", "    maxvalue = 2**16"), 'Uint16')
+V('c06-setter-raw', 'C06', 'C06.R3',
+  (OBJ, "        self._value = cimvalue(value, self.type)",
+        "        self._value = value if self.type == 'string' else cimvalue(value, self.type)", 4),
+  'not-through-cimvalue')
+V('c06-real32-digits', 'C06', 'C06.R6',
+  (TYP, "s = f'{obj:.11G}'", "s = f'{obj:.7G}'"), 'precision')
+V('c06-real64-digits', 'C06', 'C06.R6',
+  (TYP, "s = f'{obj:.17G}'", "s = f'{obj:.15G}'"), 'precision')
+V('c06-copy-precision', 'C06', 'C06.R5',
+  (TYP, "            self.__precision = dtarg.precision\n", ""), '__precision')
+V('c06-cimvalue-passthrough', 'C06', 'C06.R4',
+  (OBJ, "    if isinstance(value, type_obj):\n        return value\n    return type_obj(value)",
+        "    if isinstance(value, (type_obj, int)):\n        return value\n    return type_obj(value)"),
+  'cimvalue')
+
+# ---- C04 ------------------------------------------------------------------
+OPSF = 'pywbem/_cim_operations.py'
+MOCKF = 'pywbem_mock/_wbemconnection_mock.py'
+V('c04-key-typo', 'C04', 'C04.R1',
+  (MOCKF, "IncludeClassOrigin=params.get('IncludeClassOrigin', None))\n        return self._make_tuple(classes)",
+          "IncludeClassOrigin=params.get('IncludeClassOrigin, None)', None))\n        return self._make_tuple(classes)"),
+  'malformed-key')
+V('c04-cross-wired', 'C04', 'C04.R1',
+  (MOCKF, "            IncludeQualifiers=params.get('IncludeQualifiers', None),\n            IncludeClassOrigin=params.get('IncludeClassOrigin', None),\n            PropertyList=params.get('PropertyList', None))\n        return self._make_tuple([instance])",
+          "            IncludeQualifiers=params.get('IncludeClassOrigin', None),\n            IncludeClassOrigin=params.get('IncludeClassOrigin', None),\n            PropertyList=params.get('PropertyList', None))\n        return self._make_tuple([instance])"),
+  '')
+V('c04-filter-truthy', 'C04', 'C04.R2',
+  (OPSF, "for x in params.items() if x[1] is not None]", "for x in params.items() if x[1]]", 2), 'filter')
+V('c04-no-default-ns', 'C04', 'C04.R3',
+  (OPSF, "        if namespace is None:\n            namespace = self.default_namespace\n        return namespace",
+         "        return namespace", 2), 'no-default')
+V('c04-opname', 'C04', 'C04.R5',
+  (OPSF, "method_name = 'GetQualifier'", "method_name = 'GetQualifiers'"), 'GetQualifier')
+V('c04-client-drops-param', 'C04', 'C04.R1',
+  (OPSF, "                ClassName=ClassName,\n                LocalOnly=LocalOnly,\n                DeepInheritance=DeepInheritance,\n                IncludeQualifiers=IncludeQualifiers,\n                IncludeClassOrigin=IncludeClassOrigin,\n                PropertyList=PropertyList)\n\n            if result is None:\n                instances = []",
+         "                ClassName=ClassName,\n                LocalOnly=LocalOnly,\n                IncludeQualifiers=IncludeQualifiers,\n                IncludeClassOrigin=IncludeClassOrigin,\n                PropertyList=PropertyList)\n\n            if result is None:\n                instances = []"),
+  'never-sent')
